@@ -49,6 +49,33 @@ fn keyfile(name: &str) -> Vec<u8> {
     let p = format!("{}/../keys/v{}.{name}.bin", env!("CARGO_MANIFEST_DIR"), VER);
     std::fs::read(&p).unwrap_or_else(|e| panic!("{p}: {e}"))
 }
+/// byte strings that are mostly NOT keys: `kind \t label \t hex` lines, produced by `pvmon featkeys`
+fn odd_keys(kind: &str) -> Vec<(String, Vec<u8>)> {
+    let p = format!("{}/../keys/v{}.odd-keys.txt", env!("CARGO_MANIFEST_DIR"), VER);
+    let text = std::fs::read_to_string(&p).unwrap_or_else(|e| panic!("{p}: {e}"));
+    let mut out = vec![];
+    for (i, l) in text.lines().enumerate() {
+        let mut it = l.split('\t');
+        let (Some(k), Some(label), Some(hx)) = (it.next(), it.next(), it.next()) else { continue };
+        if k == kind {
+            let bytes: Vec<u8> = (0..hx.len() / 2).map(|j| u8::from_str_radix(&hx[2 * j..2 * j + 2], 16).unwrap()).collect();
+            out.push((format!("{i}.{label}"), bytes));
+        }
+    }
+    out
+}
+
+/// acceptance of every odd byte string as a key of kind K must not depend on the feature set
+fn odd_key_lines<K: paseto_core::key::KeyType>(o: &mut Out, kind: &str)
+where
+    V: paseto_core::key::HasKey<K>,
+{
+    for (label, bytes) in odd_keys(kind) {
+        let r: Result<paseto_core::key::Key<V, K>, _> = KeyText::<V, K>::from_raw_bytes(&bytes).try_into();
+        o.line(&format!("oddkey.{kind}.{label}"), show(r.map(|k| k.expose_key().as_raw_bytes().to_vec())).chars().take(80).collect());
+    }
+}
+
 fn forge(tok: &str) -> String {
     // flip one character in the middle of the body to another alphabet character
     let mut b = tok.as_bytes().to_vec();
@@ -89,6 +116,7 @@ fn local_ops(o: &mut Out) {
     use paseto_core::{EncryptedToken, LocalKey};
     let key: LocalKey<V> = KeyText::<V, paseto_core::version::Local>::from_raw_bytes(&keyfile("local")).try_into().expect("local key");
     o.line("key.local.text", key.expose_key().to_string());
+    odd_key_lines::<paseto_core::version::Local>(o, "local");
     let reparsed: Result<LocalKey<V>, _> = key.expose_key().to_string().parse();
     o.line("key.local.reparse", format!("{}", reparsed.is_ok()));
     let nv = NoValidation::<Raw>::dangerous_no_validation();
@@ -178,6 +206,8 @@ fn local_ops(o: &mut Out) {
         use paseto_core::version::{PkePublic, PkeSecret};
         let pk: Key<V, PkePublic> = KeyText::<V, PkePublic>::from_raw_bytes(&keyfile("pke-public")).try_into().expect("pke public");
         let sk: Key<V, PkeSecret> = KeyText::<V, PkeSecret>::from_raw_bytes(&keyfile("pke-secret")).try_into().expect("pke secret");
+        odd_key_lines::<PkePublic>(o, "pke-public");
+        odd_key_lines::<PkeSecret>(o, "pke-secret");
         let sealed_key: LocalKey<V> = [5u8; 32].into();
         let own = sealed_key.clone().seal(&pk).map(|s| s.to_string());
         let rt = own.as_ref().ok().and_then(|s| s.parse::<SealedKey<V>>().ok()).and_then(|s| s.unseal(&sk).ok()).map(|k| k.expose_key().as_raw_bytes() == [5u8; 32]);
@@ -195,6 +225,7 @@ fn public_ops(o: &mut Out) {
     use paseto_core::{PublicKey, SignedToken};
     let pk: PublicKey<V> = KeyText::<V, Public>::from_raw_bytes(&keyfile("public")).try_into().expect("public key");
     o.line("key.public.text", pk.to_string());
+    odd_key_lines::<Public>(o, "public");
     o.line("key.public.reparse", format!("{}", pk.to_string().parse::<PublicKey<V>>().is_ok()));
     let nv = NoValidation::<Raw>::dangerous_no_validation();
     #[cfg(feature = "has-id")]
@@ -206,6 +237,7 @@ fn public_ops(o: &mut Out) {
         use paseto_core::{SecretKey, UnsignedToken};
         let sk: SecretKey<V> = KeyText::<V, Secret>::from_raw_bytes(&keyfile("secret")).try_into().expect("secret key");
         o.line("key.secret.text-len", format!("{}", sk.expose_key().to_string().len()));
+        odd_key_lines::<Secret>(o, "secret");
         o.line("key.secret.public_key", sk.public_key().to_string());
         #[cfg(feature = "has-id")]
         o.line("id.sid", sk.id().to_string());
